@@ -142,7 +142,7 @@ static void vf_check_failed(const char *msg)
 #define VF_MAXLANE 2
 #define VF_MAXSTEP 400
 #define VF_MAXKEYS 200000
-static struct vf_key { short lane, k, s, u, c, v, i; } vf_keys[VF_MAXKEYS];
+static struct vf_key { short lane, k, s, u, c, v, i, t; } vf_keys[VF_MAXKEYS];
 static int vf_nkeys;
 static unsigned vf_keyhash[1 << 20];
 static int vf_hint_on = 1;
@@ -168,6 +168,9 @@ static void vf_key_of(struct cat_object *at, struct vf_key *key)
         }
         if (vf_state_uses_index(key->s))
                 key->i = (at->index < 64) ? (short)at->index : -2;
+        key->t = -3;
+        if (key->s == CAT_STATE_PRINT_CMD)
+                key->t = ((int)at->cmd_type >= -1 && (int)at->cmd_type <= 4) ? (short)at->cmd_type : -2;
 }
 
 static void vf_record(int lane, int k, struct cat_object *at)
@@ -177,7 +180,7 @@ static void vf_record(int lane, int k, struct cat_object *at)
         vf_key_of(at, &key);
         key.lane = (short)lane;
         key.k = (short)k;
-        h = (unsigned)(lane * 7919 + k * 104729 + key.s * 1299709 + key.u * 15485863 + key.c * 32452843 + key.v * 49979687 + key.i * 67867967);
+        h = (unsigned)(lane * 7919 + k * 104729 + key.s * 1299709 + key.u * 15485863 + key.c * 32452843 + key.v * 49979687 + key.i * 67867967 + key.t * 86028121);
         for (j = 0; j < 64; j++) {
                 unsigned slot = (h + j * 2654435761u) & ((1u << 20) - 1);
                 unsigned e = vf_keyhash[slot];
@@ -197,7 +200,7 @@ static cat_status hinted_service(int lane, int k, struct cat_object *at)
         if (vf_verbose) {
                 struct vf_key key;
                 vf_key_of(at, &key);
-                printf("STEP lane=%d k=%d state=%d ustate=%d cmd=%d var=%d index=%d\n", lane, k, key.s, key.u, key.c, key.v, key.i);
+                printf("STEP lane=%d k=%d state=%d ustate=%d cmd=%d var=%d index=%d type=%d\n", lane, k, key.s, key.u, key.c, key.v, key.i, key.t);
         }
         return cat_service(at);
 }
@@ -299,7 +302,7 @@ int main(int argc, char **argv)
                         }
                 }
                 for (k = 0; k < vf_nkeys; k++)
-                        printf("H %d %d %d %d %d %d %d\n", vf_keys[k].lane, vf_keys[k].k, vf_keys[k].s, vf_keys[k].u, vf_keys[k].c, vf_keys[k].v, vf_keys[k].i);
+                        printf("H %d %d %d %d %d %d %d %d\n", vf_keys[k].lane, vf_keys[k].k, vf_keys[k].s, vf_keys[k].u, vf_keys[k].c, vf_keys[k].v, vf_keys[k].i, vf_keys[k].t);
                 return 0;
         }
         if (argc >= 4 && strcmp(argv[1], "--sample") == 0) {
@@ -334,7 +337,7 @@ int main(int argc, char **argv)
                         }
                 }
                 for (k = 0; k < vf_nkeys; k++)
-                        printf("H %d %d %d %d %d %d %d\n", vf_keys[k].lane, vf_keys[k].k, vf_keys[k].s, vf_keys[k].u, vf_keys[k].c, vf_keys[k].v, vf_keys[k].i);
+                        printf("H %d %d %d %d %d %d %d %d\n", vf_keys[k].lane, vf_keys[k].k, vf_keys[k].s, vf_keys[k].u, vf_keys[k].c, vf_keys[k].v, vf_keys[k].i, vf_keys[k].t);
                 for (k = 0; k < vf_wn; k++)
                         printf("W %s %ld\n", vf_wname[k], vf_wcount[k]);
                 printf("SAMPLES total=%ld valid=%ld invalid=%ld crashed=%ld checkfail=%ld\n", n, valid, invalid, crashed, failed);
